@@ -29,6 +29,27 @@ def run_miri(flags, args, timeout):
     return p
 
 
+def first_use_reference(prog_seed, mode="first-ref"):
+    """The first-use rounds are judged against results from ANOTHER process: the same program built natively (same reduced
+    corpus) and run sequentially in mode `first-ref`.  A corruption that sticks to the process once two threads have
+    collided would spoil a reference computed inside the Miri process in the same way as the results it is compared with."""
+    env = dict(os.environ)
+    env.update(cargo_env())
+    env["SIMCORPUS_SMALL"] = "1"
+    tdir = os.path.join(TARGET, "mirinative")
+    p = subprocess.run(["cargo", "build", "--offline", "-q", "-p", "miri_threads", "--target-dir", tdir], cwd=SIM_DIR, env=env, capture_output=True)
+    if p.returncode != 0:
+        raise HarnessError("native build of miri_threads failed:\n" + p.stderr.decode(errors="replace")[-3000:])
+    r = subprocess.run([os.path.join(tdir, "debug", "miri_threads"), str(prog_seed), "0", mode], capture_output=True, timeout=600)
+    if r.returncode != 0 or b"REF\t" not in r.stdout:
+        raise HarnessError("native reference run of miri_threads failed:\n" + r.stderr.decode(errors="replace")[-2000:])
+    os.makedirs(os.path.join(TARGET, "run"), exist_ok=True)
+    path = os.path.join(TARGET, "run", "miri-%s-%d.txt" % (mode, prog_seed))
+    with open(path, "wb") as f:
+        f.write(r.stdout)
+    return path
+
+
 def classify(stderr, stdout):
     text = stderr + "\n" + stdout
     if "DIFFERENCE" in stdout:
@@ -53,6 +74,9 @@ def run(tier, seed, replay_path=None):
     base = "-Zmiri-preemption-rate=0.1 -Zmiri-disable-isolation"
     if replay_path:
         r = json.load(open(replay_path))
+        if ("first" in r["args"] or "lockstep" in r["args"]) and len(r["args"]) > 3:
+            # the out-of-process reference is made again from the current working tree
+            r["args"] = r["args"][:3] + [first_use_reference(int(r["args"][0]), "first-ref" if "first" in r["args"] else "lockstep-ref")]
         p = run_miri(r["miriflags"], r["args"], 1800)
         kind = classify(p.stderr.decode(errors="replace"), p.stdout.decode(errors="replace"))
         if p.returncode != 0 and kind:
@@ -73,12 +97,18 @@ def run(tier, seed, replay_path=None):
     batches = [("general", start, nseeds - nseeds // 2, njobs, []), ("general-late", start + 300000, nseeds // 2, njobs, ["late"]),
                ("whitespace", start + 500000, nws, 12, ["ws"]), ("pool", start + 700000, npool, 6, ["pool"]),
                # one round per grammar, three threads start the same parses at once (first use of every feature under contention)
-               ("first-use", start + 900000, max(2, nseeds // 2), 0, ["first"])]
+               ("first-use", start + 900000, max(2, nseeds // 2), 0, ["first"]),
+               # lock-step rounds: a rendezvous before every parse, every parse a short text that fails somewhere new
+               ("lock-step", start + 1100000, max(2, nseeds // 2), 0, ["lockstep"])]
     info = {"batches": [], "threads": 3, "preemption_rate": 0.1, "clean_runs": 0, "seeds": sum(b[2] for b in batches), "wall_s": None, "violation": None}
     rc = 0
     for bname, bstart, bn, bjobs, extra in batches:
         if bn <= 0 or rc:
             continue
+        if bname == "first-use":
+            extra = extra + [first_use_reference(prog_seed)]
+        if bname == "lock-step":
+            extra = extra + [first_use_reference(prog_seed, "lockstep-ref")]
         flags = "-Zmiri-many-seeds=%d..%d %s" % (bstart, bstart + bn, base)
         args = [prog_seed, bjobs] + extra
         p = run_miri(flags, args, 3600)
